@@ -68,7 +68,7 @@ RULE = (
 STATE_MEASURE = "sched|: distinct interleavings = completion orders of concurrently scheduled asyncio call groups (as permutations of start positions); req|: distinct (operation shape = per-location multiset of parameter kinds + body kind) x variant x sync/async/threads x fault kind; tsched|: distinct caller-thread interleavings (group size, finish order, number of switches capped at 6)"
 ASSUMPTIONS = [
     "values are compared modulo the accepted serialisations of DESIGN A.2: the property fixes WHERE a value goes, not its spelling",
-    "path/header/cookie canaries use unreserved characters only; query/body strings include reserved and non-ASCII characters",
+    "header/cookie canaries use unreserved characters only; path, query and body strings include reserved and non-ASCII characters (a path value is extracted from the RAW path segment by segment and must arrive percent-encoded inside its own slot; bare dot segments are excluded)",
     "cells where the wire form is undefined (lists in path/cookie/header, None in header) are excluded; probe cells are generated in dedicated operations",
     "httpx enforces timeouts inside real transports; here 'the timeout fired' is decided by the stub from the timeout value the real client attached",
 ]
